@@ -1,11 +1,11 @@
 (** C13 — SPARQL answers equal evaluation over the stored triple set: the property theorems
     (statements only; proofs are in Rdf/ProofsStore.v, ProofsAlgebra.v, ProofsEngine.v).
     Pinned by props/C13.statements. *)
-From GV Require Export Rdf.Spec Rdf.Engine.
-From GV Require Import Rdf.ProofsStore.
+From GV Require Export Rdf.Spec Rdf.Run.
+From GV Require Import Rdf.ProofsStore Rdf.ProofsAlgebra Rdf.ProofsEngine.
 Open Scope Z_scope.
 
-(** * the triple store *)
+(** * the triple store (model of graph/rdf/store.rs) *)
 
 Theorem idx_inv : forall c ops x,
   let s := reach c ops in
@@ -28,3 +28,155 @@ Theorem with_spec : forall c ops x,
   (NoDup (with_object s x) /\ Permutation (with_object s x) (filter (fun t => term_eqb (t_o t) x) (triples s))).
 Proof. intros c ops x. apply with_spec_inv. apply inv_reach. Qed.
 Print Assumptions with_spec.
+
+Theorem set_semantics : forall c ops t,
+  let s := reach c ops in
+  (snd (insert s t) = negb (memb t (triples s)) /\
+   (memb t (triples s) = true -> fst (insert s t) = s) /\
+   (forall u, In u (triples (fst (insert s t))) <-> u = t \/ In u (triples s))) /\
+  (snd (remove s t) = memb t (triples s) /\
+   (memb t (triples s) = false -> fst (remove s t) = s) /\
+   (forall u, In u (triples (fst (remove s t))) <-> u <> t /\ In u (triples s))) /\
+  clear s = Store c [] [] [] (if c then Some [] else None) (txbuf s).
+Proof. exact set_semantics_l. Qed.
+Print Assumptions set_semantics.
+
+Theorem stats_spec : forall c ops,
+  let s := reach c ops in
+  len s = Z.of_nat (length (triples s)) /\ is_empty s = is_nil (triples s) /\
+  (forall t, contains s t = true <-> In t (triples s)) /\
+  get_stats s = Stats (Z.of_nat (length (triples s)))
+                      (distinct_count (map t_s (triples s)))
+                      (distinct_count (map t_p (triples s)))
+                      (if c then distinct_count (map t_o (triples s)) else 0).
+Proof. exact stats_spec_l. Qed.
+Print Assumptions stats_spec.
+
+Theorem keys_spec : forall c ops,
+  let s := reach c ops in
+  (NoDup (subjects s) /\ forall x, In x (subjects s) <-> In x (map t_s (triples s))) /\
+  (NoDup (predicates s) /\ forall x, In x (predicates s) <-> In x (map t_p (triples s))) /\
+  (NoDup (objects s) /\ forall x, In x (objects s) <-> In x (map t_o (triples s))).
+Proof. exact keys_spec_l. Qed.
+Print Assumptions keys_spec.
+
+Theorem commit_is_replay : forall s tx,
+  fst (commit_tx s tx) =
+  run (set_txbuf s (buf_del tx (txbuf s)))
+      (map op_of_pending (match buf_get tx (txbuf s) with Some l => l | None => [] end)) /\
+  snd (commit_tx s tx) = Z.of_nat (length (match buf_get tx (txbuf s) with Some l => l | None => [] end)).
+Proof. exact commit_is_replay_l. Qed.
+Print Assumptions commit_is_replay.
+
+Theorem content_unchanged : forall s o,
+  match o with Insert _ | Remove _ | Clear | CommitTx _ => True
+  | _ => let s' := fst (step s o) in
+         triples s' = triples s /\ sidx s' = sidx s /\ pidx s' = pidx s /\ oidx s' = oidx s /\ cfg_obj s' = cfg_obj s
+  end.
+Proof. intros s o. destruct o; try exact I; apply content_unchanged_l; reflexivity. Qed.
+Print Assumptions content_unchanged.
+
+Example store_nonvacuous :
+  triples (reach true [Insert (Triple (Iri [97]) (Iri [112]) (Iri [98])); Insert (Triple (Iri [97]) (Iri [112]) (Iri [98]));
+                       Insert (Triple (Iri [98]) (Iri [112]) (Iri [98])); Remove (Triple (Iri [97]) (Iri [112]) (Iri [98]))])
+  = [Triple (Iri [98]) (Iri [112]) (Iri [98])].
+Proof. reflexivity. Qed.
+
+(** * the algebra (Rdf/Algebra.v = SPARQL 1.1 section 18 restricted to the core) *)
+
+Definition all_width (n : nat) (o : list sol) : Prop := Forall (fun m => length m = n) o.
+
+Theorem join_comm : forall n o1 o2, all_width n o1 -> all_width n o2 ->
+  Permutation (join o1 o2) (join o2 o1).
+Proof. exact join_comm_l. Qed.
+Print Assumptions join_comm.
+
+Theorem join_assoc : forall n o1 o2 o3, all_width n o1 -> all_width n o2 -> all_width n o3 ->
+  join (join o1 o2) o3 = join o1 (join o2 o3).
+Proof. exact join_assoc_l. Qed.
+Print Assumptions join_assoc.
+
+Theorem bgp_as_joins : forall n g tps tps', Permutation tps tps' ->
+  all_width n (eval_bgp n g tps) /\ Permutation (eval_bgp n g tps) (eval_bgp n g tps').
+Proof. intros n g tps tps' H. split; [apply eval_bgp_wf|apply bgp_order_irrelevant_l; exact H]. Qed.
+Print Assumptions bgp_as_joins.
+
+Theorem bgp_split : forall n g tps1 tps2,
+  eval_bgp n g (tps1 ++ tps2) = join (eval_bgp n g tps1) (eval_bgp n g tps2).
+Proof. exact bgp_split_l. Qed.
+Print Assumptions bgp_split.
+
+Theorem optional_spec : forall c o1 o2,
+  Permutation (left_join c o1 o2)
+              (filter (holds_opt c) (join o1 o2) ++
+               filter (fun m1 => forallb (fun m2 => negb (compat m1 m2 && holds_opt c (merge m1 m2))) o2) o1).
+Proof. exact left_join_spec_l. Qed.
+Print Assumptions optional_spec.
+
+Theorem filter_push_rdf : forall n c o1 o2, all_width n o1 -> all_width n o2 ->
+  (forall m1 v, In m1 o1 -> In v (expr_vars c) -> nth v m1 None <> None) ->
+  filter (holds c) (join o1 o2) = join (filter (holds c) o1) o2.
+Proof. exact filter_push_l. Qed.
+Print Assumptions filter_push_rdf.
+
+Theorem distinct_spec : forall rows : list (list (option term)),
+  NoDup (distinct_by (list_eqb (option_eqb term_eqb)) rows) /\
+  forall r, In r (distinct_by (list_eqb (option_eqb term_eqb)) rows) <-> In r rows.
+Proof. intro rows. apply distinct_by_spec. exact sol_eqb_eq. Qed.
+Print Assumptions distinct_spec.
+
+Theorem slice_spec : forall (off lim : option nat) (l : list sol),
+  slice off lim l = match lim with Some k => firstn k | None => fun x => x end
+                      (match off with Some k => skipn k l | None => l end) /\
+  length (slice off lim l) =
+  (let rest := (length l - match off with Some k => k | None => O end)%nat in
+   match lim with Some k => Nat.min k rest | None => rest end).
+Proof. intros off lim l. split; [apply ProofsAlgebra.slice_spec|apply slice_length]. Qed.
+Print Assumptions slice_spec.
+
+Theorem update_algebra : forall g ts, NoDup g ->
+  (NoDup (eval_update g (InsertData ts)) /\ forall t, In t (eval_update g (InsertData ts)) <-> In t g \/ In t ts) /\
+  (NoDup (eval_update g (DeleteData ts)) /\ forall t, In t (eval_update g (DeleteData ts)) <-> In t g /\ ~ In t ts).
+Proof.
+  intros g ts H. cbn [eval_update]. split; split;
+    [apply insert_data_NoDup; exact H|apply insert_data_In|apply delete_data_NoDup; exact H|apply delete_data_In].
+Qed.
+Print Assumptions update_algebra.
+
+Example join_nonvacuous :
+  join [[Some (Iri [97]); None]] [[None; Some (Iri [98])]; [Some (Iri [99]); None]] = [[Some (Iri [97]); Some (Iri [98])]].
+Proof. reflexivity. Qed.
+
+(** * the engine (model of sparql_translator.rs + planner_rdf.rs + operators) against the algebra *)
+
+Theorem filter_tbl_spec : forall e t,
+  all_live (t_chunks (filter_tbl e t)) = filter (ipred (t_cols t) e) (all_live (t_chunks t)).
+Proof. exact filter_tbl_spec_l. Qed.
+Print Assumptions filter_tbl_spec.
+
+Theorem refilter_pre_refuted : exists e1 e2 t,
+  all_live (t_chunks (Tbl (t_cols t) (flat_map (filter_chunk_pre (t_cols t) e2)
+              (flat_map (filter_chunk_pre (t_cols t) e1) (t_chunks t)))))
+  <> filter (ipred (t_cols t) e2) (filter (ipred (t_cols t) e1) (all_live (t_chunks t))).
+Proof. exact refilter_pre_refuted_l. Qed.
+Print Assumptions refilter_pre_refuted.
+
+Theorem update_spec : forall st u,
+  (let ts := match u with InsertData ts | DeleteData ts => ts end in
+   negb (is_nil ts) && forallb (fun t => negb (has_blank t) && triple_eqb (conv_triple t) t) ts = true) ->
+  exists st', run_update st u = Done st' /\ triples st' = eval_update (triples st) u.
+Proof.
+  intros st u H. destruct (update_spec_l st u H) as [st' [H1 [H2 _]]]. exists st'. split; assumption.
+Qed.
+Print Assumptions update_spec.
+
+Theorem update_refuted : exists ds u st',
+  run_update (store_of ds) u = Done st' /\
+  ~ Permutation (triples st') (eval_update (triples (store_of ds)) u).
+Proof. exact update_refuted_l. Qed.
+Print Assumptions update_refuted.
+
+Theorem select_refuted : forall c, 1 <= c <= 8 ->
+  exists n ds q, k_class_g n ds q = c /\ select_agrees n ds q = false.
+Proof. exact select_refuted_l. Qed.
+Print Assumptions select_refuted.
